@@ -306,3 +306,9 @@ package evm
 //@   must@store(EVMCtrler.blockGasPool,0): result1 == nil                                                      [C17,C16]
 //@   must@call(AddGas,0): result1 == nil                                                                       [C17,C16]
 //@   must@call(NewEVM,0): result1 == nil                                                                       [C01,C17]
+
+// block end of this controller as seen by RigoApp.EndBlock: frame only (its steps are under their own contracts)
+//@ func (ctrler *EVMCtrler) EndBlock(ctx)
+//@   trusted
+//@   modifies everything
+//@   preserves RigoApp.*, BlockContext.feeSum
